@@ -8,24 +8,24 @@ out = []
 import sys
 sys.path.insert(0, os.path.join(V, "bin"))
 import psvlib
-out.append("### A.4b Theorem inventory (every `theorem` in `lean/PsV/Props/<ID>.lean`; each is an audited obligation)\n")
+out.append("### A.8 Theorem inventory (every `theorem` in `lean/PsV/Props/<ID>.lean`; each is an audited obligation)\n")
 for f in sorted(glob.glob(os.path.join(V, "lean", "PsV", "Props", "C*.lean"))):
     src = psvlib.strip_lean_comments(open(f).read())
     names = re.findall(r"^(?:private\s+)?theorem\s+([^\s:({\[]+)", src, re.M)
     out.append("* **%s** (%d): %s" % (os.path.basename(f)[:-5], len(names), ", ".join("`%s`" % n for n in names)))
 out.append("")
-out.append("### A.5 Per-property notes (from `integration/<ID>.json`, written by the builder of each check)\n")
+out.append("### A.9 Per-property notes (from `integration/<ID>.json`, written by the builder of each check)\n")
 for f in sorted(glob.glob(os.path.join(V, "integration", "C*.json"))):
     d = json.load(open(f)); pid = os.path.basename(f)[:-5]
     out.append("#### %s\n" % pid)
     out.append(d.get("design_notes", "").strip() + "\n")
 k = json.load(open(os.path.join(V, "known_findings.json")))
-out.append("### A.6 Genuine defects\n")
+out.append("### A.10 Genuine defects\n")
 out.append("Repaired in /repo by `fix:` commits (each line: property, commit, what failed):\n")
 for l in k["fixed"]: out.append("* " + l[len("fixed: "):] if l.startswith("fixed: ") else "* " + l)
 out.append("\nRecorded, not repaired (known findings; the checks print `KNOWN-FINDING` for exactly these signatures and report any other violation):\n")
 for f in k["findings"]: out.append("* **%s** `%s` — %s" % (f["property"], f["signature"], f["what"]))
-out.append("\n### A.7 Seeded changes (independent agents, given only the property text) and which check catches them\n")
+out.append("\n### A.11 Seeded changes (independent agents, given only the property text) and which check catches them\n")
 out.append("| id | breaks | what it needs to manifest | confirmed (tests pass, demo fails with / passes without) | quick check on the patched tree |")
 out.append("|---|---|---|---|---|")
 for d in sorted(glob.glob(os.path.join(V, "seeded", "*"))):
